@@ -128,6 +128,23 @@ fn variants(q: &Query, tables: &[TableData]) -> Vec<(&'static str, String)> {
                 v.push(("noindex", Query::Agg { table: *table, group: group.clone(), aggs: aggs.clone(), pred: Some(deindex(p, &ty)) }.sql(tables, false)));
             }
         }
+        Query::Join3 { tables: ts, kinds, ons, pred } => {
+            let ty = |t: u8, c: u8| tables[ts[t as usize] as usize].cols[c as usize].1;
+            let d_ons = [ons[0].as_ref().map(|p| deindex(p, &ty)), ons[1].as_ref().map(|p| deindex(p, &ty))];
+            v.push(("noindex", Query::Join3 { tables: *ts, kinds: *kinds, ons: d_ons, pred: pred.as_ref().map(|p| deindex(p, &ty)) }.sql(tables, false)));
+            if kinds.iter().all(|k| matches!(k, JoinKind::Inner)) {
+                // all conditions in WHERE over cross joins: the optimizer is free to pick any join order
+                let mut all: Option<E> = None;
+                for e in ons.iter().flatten().chain(pred.iter()) {
+                    all = Some(match all {
+                        None => e.clone(),
+                        Some(a) => E::And(Box::new(a), Box::new(e.clone())),
+                    });
+                }
+                v.push(("on_to_where", Query::Join3 { tables: *ts, kinds: [JoinKind::Cross, JoinKind::Cross], ons: [None, None], pred: all }.sql(tables, false)));
+            }
+        }
+        Query::Union { .. } | Query::AggOrdered { .. } => {}
         Query::Join { left, right, kind, on, pred } => {
             let ty = |t: u8, c: u8| if t == 0 { tables[*left as usize].cols[c as usize].1 } else { tables[*right as usize].cols[c as usize].1 };
             v.push(("swapped_join", join_sql(tables, *left, *right, *kind, on, pred, true)));
@@ -252,7 +269,11 @@ pub fn run_case(c: &PCase) -> CaseOut {
         probes.push(E::Cmp(CmpOp::Le, col(), lit(mid)));
         probes.push(E::Cmp(CmpOp::Lt, col(), lit(hi)));
         for p in probes {
-            work.push((Query::Select { table: *ti as u8, proj: proj.clone(), distinct: false, pred: Some(p), order: vec![], limit: None }, vec!["q.index_probe".into()]));
+            let q = Query::Select { table: *ti as u8, proj: proj.clone(), distinct: false, pred: Some(p), order: vec![], limit: None };
+            let mut tags = c05::features_of(&Resolved::Q(q.clone()));
+            tags.retain(|t| t.starts_with("sql."));
+            tags.push("q.index_probe".into());
+            work.push((q, tags));
         }
     }
     for aq in &c.queries {
